@@ -1,4 +1,4 @@
-import CV.Proofs.CoreQueue
+import CV.Proofs.InvQueue
 /-
 C02 — dispatch order.
 
@@ -406,5 +406,377 @@ example : (3 : Nat) < exHs.length ∧ (chooseIter exPrio (3 + 1) exHints exHs).g
     is NOT sorted — the fallback then runs after a lower-priority handler -/
 example : ¬ ([0, 1] ++ [2]).Pairwise (fun a b => (fun | 0 => (0:Int) | 1 => -200 | _ => -100) a ≥
     (fun | 0 => (0:Int) | 1 => -200 | _ => -100) b) := by decide
+
+
+/-! ## 8. the link to the machine
+
+Parts 1-7 are about the queue LAYER (`EQ` under `QOp`) and the handler-choice layer
+(`chooseNext`).  The theorems below are about the small-step core machine
+(CV/Model/Core/Step.lean): every configuration (`step_queue_ops`, `fire_is_inert`, …: no
+hypothesis at all, hence in particular every reachable one) resp. every configuration of every
+driver session (`Reach s0 c`, CV/Proofs/CoreReach.lean: arbitrary external operations, clock
+advances, tapes, programs) from an initial state whose queues satisfy the layer invariant.
+They say that the machine touches a component's `_EventQueue` only through the layer
+operations, so that parts 1-7 apply to it.  Proofs: CV/Proofs/InvQueueBase.lean (the relation
+`QRel` through all primitives / helpers / arms of `step`), CV/Proofs/InvQueue.lean. -/
+
+/-- **Classification.**  What one step of the machine - any configuration `c`, any component `x`
+    - does to `x`'s queue `q = (c.st.comp x).eq`; `q'` is the queue after the step:
+    1. `q' = runOps q ops` for a finite list of `QOp.app` ops (`[]` = unchanged; two for e.g.
+       `handlerRaised` = failure + exception, `eventDonePre` = done + success);
+    2. `q' = flushBegin q` - only when the top frame is `.flush y` and `x` is `y`'s root;
+    3. `(q', it) = pop pick q` with a successful pop - only when the top frame is
+       `.dispatchLoop x`; the popped event goes to `.dispatcher x it.ev q'.batch`;
+    4. `q' = (q.drainFrom child.eq).1` (deque := deque ++ child's deque) - only when the top frame
+       is `.register ch p` and `x ≠ ch` is `p`'s root;
+    5. `q' = (root.eq.drainFrom q).2` (deque := []) - only when the top frame is `.register x p`.
+    Counter, heap and batch change only as those operations change them. -/
+theorem step_queue_ops (c : Cfg) (x : Nat) :
+    (∃ ops : List QOp, (∀ o ∈ ops, ∃ e p, o = QOp.app e p) ∧
+        ((step c).st.comp x).eq = (runOps (c.st.comp x).eq ops).1)
+    ∨ (∃ y k, c.stack = .flush y :: k ∧ c.exn = none ∧ c.st.rootOf y = x ∧
+        ((step c).st.comp x).eq = (QOp.flushBegin.apply (c.st.comp x).eq).1)
+    ∨ (∃ k pick it, c.stack = .dispatchLoop x :: k ∧ c.exn = none ∧
+        (QOp.pop pick).apply (c.st.comp x).eq = (((step c).st.comp x).eq, some it) ∧
+        (step c).stack = .dispatcher x it.ev ((step c).st.comp x).eq.batch :: .dispatchLoop x :: k)
+    ∨ (∃ ch p k, c.stack = .register ch p :: k ∧ c.exn = none ∧ p ≠ ch ∧ x = (c.st.comp p).root ∧ x ≠ ch ∧
+        ((step c).st.comp x).eq = ((c.st.comp x).eq.drainFrom (c.st.comp ch).eq).1)
+    ∨ (∃ p k, c.stack = .register x p :: k ∧ c.exn = none ∧ p ≠ x ∧ (c.st.comp p).root ≠ x ∧
+        ((step c).st.comp x).eq = ((c.st.comp (c.st.comp p).root).eq.drainFrom (c.st.comp x).eq).2) := by
+  rcases q2_step_class c x with h | ⟨y, k, h1, h2, h3, h4⟩ | ⟨k, it, q', h1, h2, h3, h4, h5⟩ | h | h
+  · exact .inl h
+  · exact .inr (.inl ⟨y, k, h1, h2, h3, h4⟩)
+  · refine .inr (.inr (.inl ⟨k, c.st.q2pick, it, h1, h2, ?_, ?_⟩))
+    · simp only [QOp.apply, h3, h4]
+    · rw [h4]; exact h5
+  · exact .inr (.inr (.inr (.inl h)))
+  · exact .inr (.inr (.inr (.inr h)))
+
+/-- the same, for readers of the layer: a step that is not a `register` step applies a list of
+    layer ops to every queue -/
+theorem step_queue_runOps (c : Cfg) (x : Nat)
+    (hreg : ∀ ch p k, c.stack ≠ .register ch p :: k) :
+    ∃ ops : List QOp, ((step c).st.comp x).eq = (runOps (c.st.comp x).eq ops).1 := by
+  rcases step_queue_ops c x with ⟨ops, _, h⟩ | ⟨_, _, _, _, _, h⟩ | ⟨_, pick, _, _, _, h, _⟩ |
+      ⟨ch, p, k, hs, _⟩ | ⟨p, k, hs, _⟩
+  · exact ⟨ops, h⟩
+  · exact ⟨[.flushBegin], h⟩
+  · exact ⟨[.pop pick], by simp only [runOps, h]⟩
+  · exact absurd hs (hreg ch p k)
+  · exact absurd hs (hreg x p k)
+
+/-- hypothesis on the initial state: `_flush_batch` = heap size in every component (true of
+    freshly constructed managers: both 0) -/
+def InitBatch (s : St) : Prop := ∀ x, (s.comp x).eq.batch = (s.comp x).eq.heap.length
+
+/-- hypothesis on the initial state: every component's queue satisfies the layer invariant (true
+    of freshly constructed managers: `qinv_init`) -/
+def InitQueues (s : St) : Prop := ∀ x, QInv (s.comp x).eq
+
+/-- two fresh managers; one manager in the middle of a pass with a mixed queue -/
+def exSt : St := { comps := [{ parent := 0, root := 0 }, { parent := 1, root := 1 }] }
+def exStBusy : St := { comps := [{ parent := 0, root := 0, eq := exQ.begin }] }
+
+example : InitQueues exSt ∧ InitBatch exSt := ⟨q2_two_fresh_init, fun x => (q2_two_fresh_init x).batch_eq⟩
+example : InitQueues exStBusy ∧ InitBatch exStBusy ∧ (exStBusy.comp 0).eq.batch = 6 := by
+  have h : InitQueues exStBusy := by
+    intro x
+    match x with
+    | 0 => exact qinv_begin exQ_inv
+    | n + 1 => exact qinv_init
+  exact ⟨h, fun x => (h x).batch_eq, by decide⟩
+
+/-- **`_flush_batch` = heap size, always.**  Part (a) of `QInv` for every component of every
+    reachable configuration - including across `register` (`drainFrom` moves deques only).
+    Hence `heappop` never meets an empty heap and the `remaining` argument of `_dispatcher` is the
+    number of events of the pass still to be dispatched. -/
+theorem batch_eq_heap (s0 : St) (h0 : InitBatch s0) (c : Cfg) (hr : Reach s0 c) (x : Nat) :
+    (c.st.comp x).eq.batch = (c.st.comp x).eq.heap.length :=
+  q2_batch_reach s0 h0 c hr x
+
+/-- guard for `qinv_reach_partial`: a pending `register ch p` step finds `ch`'s deque empty -/
+def NoDrain (c : Cfg) : Prop :=
+  ∀ ch p k, c.stack = .register ch p :: k → c.exn = none → (c.st.comp ch).eq.queue = []
+
+/-- (`ReachND`, defined in CV/Proofs/InvQueue.lean, uses literally this guard) -/
+example : NoDrain = Q2NoDrain := rfl
+
+/-- The full layer invariant `QInv` (batch = heap size, sequence numbers below the counter,
+    pairwise different, increasing along the deque) holds for every component of every
+    configuration reached by a session in which no `register` step drains a non-empty deque
+    (`ReachND`: `Reach` with the guard `NoDrain` on every configuration a step is taken from).
+    FULL statement (over `Reach`): FALSE, see `qinv_reach_witness`: `drainFrom` keeps the
+    child's sequence numbers, which were stamped by another counter.  Consequence for the
+    property: `pass_sorted` / `fifo_equal` / `no_overtake` apply to the machine's passes as long
+    as components are registered before events are fired at them; after a drain of a non-empty
+    deque the priority order still holds (`dispatch_pops_min` needs no invariant) but FIFO among
+    equal priorities is only guaranteed within each of the two merged sequences. -/
+theorem qinv_reach_partial (s0 : St) (h0 : InitQueues s0) (c : Cfg) (hr : ReachND s0 c) (x : Nat) :
+    QInv (c.st.comp x).eq :=
+  q2_qinv_reachND s0 h0 c hr x
+
+/-- guarded runs are runs -/
+theorem reachND_reach {s0 : St} {c : Cfg} (h : ReachND s0 c) : Reach s0 c := h.reach
+
+/-- … and under `QInv` the tape-derived pick of the machine is irrelevant: the dispatch order of
+    guarded runs is fully determined by `(prio, seq)` -/
+theorem machine_pop_deterministic (s0 : St) (h0 : InitQueues s0) (c : Cfg) (hr : ReachND s0 c) (r : Nat)
+    (pick : List QItem → Option QItem) :
+    c.st.popEvent r = (c.st.comp r).eq.pop pick :=
+  pop_pick_irrelevant (qinv_reach_partial s0 h0 c hr r) _ _
+
+/-- **Runs of the machine are runs of the layer.**  For every configuration `c`, component `x`
+    and number of steps `n` such that no `register` step among them drains a non-empty deque:
+    there is a list of layer ops `ops` with
+      * queue of `x` after the `n` steps = `(runOps q ops).1`, and
+      * the items the layer run dispatches, `(runOps q ops).2`, = the items the `.dispatchLoop x`
+        steps of the machine run popped, in order (`q2poppedRun`) - each of which was handed to
+        `_dispatcher` by the very step that popped it (`popped_is_dispatched`).
+    So `pass_sorted`, `fifo_equal`, `no_overtake_nested`, … - statements about `runOps` - are
+    statements about what the machine dispatches, and in which order. -/
+theorem run_is_layer_run (c : Cfg) (x n : Nat) (hg : ∀ i, i < n → NoDrain (runN i c)) :
+    ∃ ops : List QOp, ((runN n c).st.comp x).eq = (runOps (c.st.comp x).eq ops).1 ∧
+      (runOps (c.st.comp x).eq ops).2 = q2poppedRun x n c :=
+  q2_run_trace x n c hg
+
+theorem popped_is_dispatched (c : Cfg) (x : Nat) (it : QItem) (h : q2popped c x = some it) :
+    ∃ k, c.stack = .dispatchLoop x :: k ∧ c.exn = none ∧
+      (step c).stack = .dispatcher x it.ev ((step c).st.comp x).eq.batch :: .dispatchLoop x :: k :=
+  q2_popped_dispatched c x it h
+
+/-- a whole `flush` of the busy manager (6 events in the heap): the machine dispatches them in
+    `(prio, seq)` order - the machine run, not the layer run, is evaluated here -/
+example : q2poppedRun 0 60 (startOf (envChange exStBusy 0 []) (.flush 0)) =
+    [⟨-1, 4, 14⟩, ⟨-1, 6, 16⟩, ⟨0, 7, 17⟩, ⟨2, 3, 13⟩, ⟨2, 5, 15⟩, ⟨2, 8, 18⟩] := by decide +kernel
+
+/-- `fire` on manager 1, `fire` on manager 0, then `1.register(0)`: both events carry sequence
+    number 0 of their own manager's counter -/
+def exW1 : Cfg := runN 3 (startOf (envChange exSt 0 []) (.doAct 1 (.fire 0 none 0 false)))
+def exW2 : Cfg := runN 3 (startOf (envChange exW1.st 0 []) (.doAct 0 (.fire 0 none 0 false)))
+def exW3 : Cfg := runN 2 (startOf (envChange exW2.st 0 []) (.doAct 1 (.reg 1 0)))
+
+/-- the excluded case really fails: a reachable configuration (from two fresh managers) whose
+    root queue holds two items with the same `(prio, seq)` key, fired in the order 0-then-1 but
+    queued in the order 1-then-0 -/
+theorem qinv_reach_witness :
+    InitQueues exSt ∧ Reach exSt exW3 ∧ ¬ NoDrain (runN 1 (startOf (envChange exW2.st 0 []) (.doAct 1 (.reg 1 0)))) ∧
+    (exW3.st.comp 0).eq.queue = [⟨0, 0, 1⟩, ⟨0, 0, 0⟩] ∧ ¬ QInv (exW3.st.comp 0).eq := by
+  refine ⟨q2_two_fresh_init,
+    Reach.runN (.next 0 [] _ (Reach.runN (.next 0 [] _ (Reach.runN (.init 0 [] _) 3) (by decide)) 3) (by decide)) 2,
+    ?_, by decide, ?_⟩
+  · intro h
+    have := h 1 0 _ rfl rfl
+    exact absurd this (by decide)
+  · intro h
+    have h1 := h.queue_inc
+    have h2 : (exW3.st.comp 0).eq.queue = [⟨0, 0, 1⟩, ⟨0, 0, 0⟩] := by decide
+    rw [h2] at h1
+    simp at h1
+
+/-- non-vacuity of `ReachND`: a guarded run with a `register` step (of a component whose deque
+    is empty) and a fire + flush afterwards -/
+example : ReachND exSt (runN 2 (startOf (envChange exSt 0 []) (.doAct 1 (.reg 1 0)))) := by
+  have h0 : ReachND exSt (startOf (envChange exSt 0 []) (.doAct 1 (.reg 1 0))) := .init 0 [] _
+  have h1 : ReachND exSt (runN 1 (startOf (envChange exSt 0 []) (.doAct 1 (.reg 1 0)))) := by
+    refine ReachND.step h0 ?_
+    intro ch p k hs _
+    simp [startOf, startDo, Cfg.start] at hs
+  refine ReachND.step h1 ?_
+  intro ch p k hs _
+  have : ch = 1 := by
+    have h2 : (runN 1 (startOf (envChange exSt 0 []) (.doAct 1 (.reg 1 0)))).stack =
+        [.register 1 0, .acts ⟨1, none⟩ [], .doFin 1] := rfl
+    rw [h2] at hs
+    injection hs with hs _
+    injection hs with h _
+    exact h.symm
+  subst this
+  decide
+
+/-- **One iteration of `dispatchEvents`' loop** in a reachable configuration whose top frame is
+    `.dispatchLoop r`: if `_flush_batch` is 0 the loop ends and nothing changes; otherwise the
+    step pops an item `it` that is a minimum by `(prio, seq)` of `r`'s heap, removes exactly it
+    (deque and counter untouched), decrements `_flush_batch` FIRST and calls
+    `_dispatcher(it.ev, …, remaining)` with `remaining` = the new `_flush_batch` = the number of
+    events left in the heap; no other component's queue changes. -/
+theorem dispatch_pops_min (s0 : St) (h0 : InitBatch s0) (c : Cfg) (hr : Reach s0 c) (r : Nat) (k : List Frame)
+    (hs : c.stack = .dispatchLoop r :: k) (hx : c.exn = none) :
+    ((c.st.comp r).eq.batch = 0 ∧ step c = { c with stack := k }) ∨
+    ((c.st.comp r).eq.batch ≠ 0 ∧
+      ∃ it q', (∀ y ∈ (c.st.comp r).eq.heap, it.le y = true) ∧ it ∈ (c.st.comp r).eq.heap ∧
+        q'.heap = (c.st.comp r).eq.heap.erase it ∧ q'.batch + 1 = (c.st.comp r).eq.batch ∧
+        q'.batch = q'.heap.length ∧ q'.queue = (c.st.comp r).eq.queue ∧ q'.counter = (c.st.comp r).eq.counter ∧
+        (step c).stack = .dispatcher r it.ev q'.batch :: .dispatchLoop r :: k ∧ (step c).exn = none ∧
+        ∀ y, ((step c).st.comp y).eq = if y = r then q' else (c.st.comp y).eq) := by
+  have hb := q2_batch_reach s0 h0 c hr
+  have hp := q2_dispatch_progress c r hb
+  rcases q2_dispatch_pops_min c r k hs hx with ⟨h1, h2⟩ | ⟨it, q', h1, h2, h3, h4, h5, h6, h7, h8, h9, _, h11⟩
+  · exact .inl ⟨hp.1.mp h1, h2⟩
+  · refine .inr ⟨?_, it, q', h2, h3, h4, h5, hp.2 it q' h1, h6, h7, h8, h9, h11⟩
+    intro hz
+    rw [hp.1.mpr hz] at h1; cases h1
+
+example : InitBatch exStBusy ∧ Reach exStBusy (startOf (envChange exStBusy 0 []) (.flush 0)) :=
+  ⟨fun x => by
+    match x with
+    | 0 => exact (qinv_begin exQ_inv).batch_eq
+    | n + 1 => rfl, .init 0 [] _⟩
+/-- the nested flush continues the batch: after the `.flush` step the loop frame is on top, and
+    its step dispatches the minimum `⟨-1, 4, 14⟩` with `remaining = 5` -/
+example : (step (step (startOf (envChange exStBusy 0 []) (.flush 0)))).stack =
+    [.dispatcher 0 14 5, .dispatchLoop 0, .flushFin 0 false] := rfl
+
+/-- **`fire()` is inert** (plain handler body / external code).  The step that executes a
+    `fire` act of a `.acts` frame: (`Q2Fire`) appends the new event `e = |evs|` with the given
+    priority to the queue of the firing component's root and to no other queue, changes no other
+    field of any component, creates the event object, logs one `F` entry, leaves the handler,
+    generator, wait and timer tables and the clock alone - and continues with the SAME frame on
+    the remaining acts: no `.dispatcher` / `.invoke` / `.hLoop` frame is pushed, the frames below
+    are untouched, nothing is returned or raised. -/
+theorem fire_is_inert (c : Cfg) (ctx : HCtx) (i : Nat) (target : Option Chan) (prio : Int) (cancel : Bool)
+    (rest : Prog) (k : List Frame)
+    (hs : c.stack = .acts ctx (.fire i target prio cancel :: rest) :: k) (hx : c.exn = none) :
+    (step c).stack = .acts ctx rest :: k ∧ (step c).exn = none ∧ (step c).ret = c.ret ∧
+    Q2Fire c.st (step c).st (c.st.rootOf ctx.self) c.st.evs.length prio ∧
+    (step c).st.evs.length = c.st.evs.length + 1 :=
+  q2_acts_fire c ctx i target prio cancel rest k hs hx
+
+/-- **`fire()` is inert** (generator handler body): the same for a `fire` act executed by a
+    `.stepGen g` frame; the generator record only advances past the act. -/
+theorem fire_is_inert_gen (c : Cfg) (g e h owner i : Nat) (target : Option Chan) (prio : Int) (cancel : Bool)
+    (rest : Prog) (n : Nat) (pc : Option Bool) (sd : Bool) (k : List Frame)
+    (hs : c.stack = .stepGen g :: k) (hx : c.exn = none)
+    (hg : c.st.gen g = .user e h owner (.fire i target prio cancel :: rest) n pc sd) :
+    (step c).stack = .stepGen g :: k ∧ (step c).exn = none ∧ (step c).ret = c.ret ∧
+    Q2Fire (c.st.setGen g (.user e h owner rest n none sd)) (step c).st (c.st.rootOf owner) c.st.evs.length prio ∧
+    (step c).st.evs.length = c.st.evs.length + 1 :=
+  q2_stepGen_fire c g e h owner i target prio cancel rest n pc sd k hs hx hg
+
+/-- what `Q2Fire` says about the queues, in layer terms: one `QOp.app` on the root, nothing else -/
+theorem fire_appends_once {s s' : St} {r e : Nat} {prio : Int} (h : Q2Fire s s' r e prio) (x : Nat) :
+    (s'.comp x).eq = if x = r ∧ x < s.comps.length then ((QOp.app e prio).apply (s.comp x).eq).1
+      else (s.comp x).eq := by
+  rw [h.comp x]
+  split <;> rfl
+
+/-- **No re-entrant dispatch through `fire()`.**  Whenever the next step executes a `fire` act of
+    user code (`Q2FiresNext`: in a plain body or in a generator body - these are the only two
+    places where the machine runs a user `fire`), the step replaces the top frame by a frame
+    that is not a dispatching frame (`.dispatcher`, `.hLoop`, `.invoke`, `.dispatchLoop`,
+    `.flush`, `.tick`), leaves all frames below untouched (cf. `C04.frames_below_untouched`),
+    logs exactly one entry, an `F`, (no `D`/`I`/`H` entry: no handler ran) and does not touch
+    the handler table.  The handler that called `fire()` simply goes on. -/
+theorem no_reentrant_dispatch_by_fire (c : Cfg) (h : Q2FiresNext c) :
+    ∃ f f' k, c.stack = f :: k ∧ (step c).stack = f' :: k ∧ f'.q2dispatching = false ∧
+      (step c).exn = none ∧ (step c).ret = c.ret ∧
+      (∃ e nm ch p, (step c).st.log = .fire e nm ch p :: c.st.log) ∧ (step c).st.hs = c.st.hs :=
+  q2_no_reentrant c h
+
+/-- a handler body about to fire, inside a dispatch (frames below: the handler loop) -/
+def exFiring : Cfg :=
+  { st := exSt, stack := [.acts ⟨1, some 0⟩ [.fire 0 none (-1) false, .ret 7], .invokeFin 0 0,
+      .hAfter 1 0 [] false .none, .dispatchLoop 1] }
+example : Q2FiresNext exFiring := ⟨rfl, .inl ⟨_, _, _, _, _, _, _, rfl⟩⟩
+example : (step exFiring).stack = [.acts ⟨1, some 0⟩ [.ret 7], .invokeFin 0 0, .hAfter 1 0 [] false .none,
+    .dispatchLoop 1] ∧ ((step exFiring).st.comp 1).eq.queue = [⟨-1, 0, 0⟩] ∧
+    ((step exFiring).st.comp 0).eq.queue = [] := ⟨rfl, by decide, by decide⟩
+
+/-- **The machine's handler loop IS `chooseNext`.**  `St.chooseHandler` (the choice the `.hLoop`
+    arm makes, following the tape) is `chooseNext` of the layer with the priority table of the
+    current state and the hint read off the tape (`St.q2hint`); the arm keeps exactly the other
+    handlers.  So `choose_max`, `choose_rest`, `handlers_desc`, `stop_cuts` are statements about
+    the machine's loop. -/
+theorem handler_loop_uses_chooseNext (s : St) (e h0 : Nat) (rest0 : List Nat) :
+    chooseNext s.q2prio (s.q2hint e h0 rest0) (h0 :: rest0) =
+      some (s.chooseHandler e h0 rest0, (h0 :: rest0).erase (s.chooseHandler e h0 rest0)) :=
+  q2_chooseHandler s e h0 rest0
+
+/-- … as a statement about the step of a `.hLoop` frame; with a descending pending list the
+    invoked handler has maximal priority and the kept list is again descending. -/
+theorem handler_loop_step (c : Cfg) (r e h0 : Nat) (rest0 : List Nat) (err : Bool) (stale : Outcome) (k : List Frame)
+    (hs : c.stack = .hLoop r e (h0 :: rest0) err stale :: k) (hx : c.exn = none) :
+    ∃ h rest, chooseNext c.st.q2prio (c.st.q2hint e h0 rest0) (h0 :: rest0) = some (h, rest) ∧
+      (step c).stack = .invoke r h e :: .hAfter r e rest err stale :: k ∧ (step c).exn = none ∧
+      (step c).st.q2prio = c.st.q2prio ∧
+      ((h0 :: rest0).Pairwise (fun a b => c.st.q2prio a ≥ c.st.q2prio b) →
+        (∀ x ∈ h0 :: rest0, c.st.q2prio h ≥ c.st.q2prio x) ∧
+        rest.Pairwise (fun a b => c.st.q2prio a ≥ c.st.q2prio b)) := by
+  obtain ⟨h, rest, h1, h2, h3, h4⟩ := q2_hLoop_step c r e h0 rest0 err stale k hs hx
+  exact ⟨h, rest, h1, h2, h3, St.q2prio_of_hs h4, fun hd => ⟨(choose_max hd h1).2, (choose_rest hd h1).1⟩⟩
+
+/-- **`stop()` cuts the loop.**  After a handler returned, the `.hApply` step looks at
+    `event.stopped`: if set, the loop frame is replaced by `.dispFin` and the pending handlers
+    `rest` (all of priority ≤ the stopper's, by `handler_loop_step`) disappear with it - no
+    frame, no state field refers to them any more; otherwise the loop goes on with the same
+    `rest`. -/
+theorem stop_breaks_loop (c : Cfg) (r e : Nat) (rest : List Nat) (err : Bool) (v : Outcome) (k : List Frame)
+    (hs : c.stack = .hApply r e rest err v :: k) (hx : c.exn = none) :
+    (step c).stack = (if ((c.st.applyValue r e v).ev e).stopped = true then Frame.dispFin r e err
+                      else Frame.hLoop r e rest err v) :: k :=
+  q2_hApply_step c r e rest err v k hs hx
+
+/-- **What `_dispatcher` builds on a cache miss.**  `computeHandlers` returns
+    `sorted = mergeSort (prio a ≥ prio b) (collected handlers)` (`St.q2sorted`, descending), and
+    appends a freshly allocated fallback handler exactly for `generate_events` (priority -100) and
+    for an unhandled `exception` event. -/
+theorem dispatcher_sorts (s : St) (r : Nat) (name : Name) (chans : List Chan) :
+    (s.q2sorted r name chans).Pairwise (fun a b => s.q2prio a ≥ s.q2prio b) ∧
+    (∀ h, h ∈ s.q2sorted r name chans ↔ ∃ ch ∈ chans, h ∈ collect s (s.comps.length + 1) r name ch) ∧
+    (((s.computeHandlers r name chans).1 = s.q2sorted r name chans ∧ (s.computeHandlers r name chans).2.hs = s.hs ∧
+        name ≠ Name.generateEvents ∧ ¬ (name = Name.exception ∧ s.q2sorted r name chans = []))
+    ∨ ((s.computeHandlers r name chans).1 = s.q2sorted r name chans ++ [s.hs.length] ∧
+        ∃ hd, (s.computeHandlers r name chans).2.hs = s.hs ++ [hd] ∧
+          ((name = Name.generateEvents ∧ hd.prio = -100 ∧ hd.kind = .fallbackGE) ∨
+           (name = Name.exception ∧ s.q2sorted r name chans = [] ∧ hd.prio = 0 ∧ hd.kind = .fallbackExc)))) := by
+  refine ⟨q2_sorted_desc s r name chans, ?_, q2_computeHandlers s r name chans⟩
+  intro h
+  unfold St.q2sorted
+  rw [List.mem_mergeSort, List.mem_flatMap]
+
+/-- … hence the list handed to the handler loop satisfies the `Desc` hypothesis of
+    `handlers_desc` / `stop_cuts` (w.r.t. the priority table of the state the loop starts in)
+    whenever the collected handlers are declared records (`hin`; C01's invariant `K.hid/gid`)
+    and - for `generate_events` - none of them has a priority below the fallback's -100 (`hlow`).
+    FULL statement (without `hlow`): false, see `dispatcher_sorts_desc_witness` and
+    `sorted_append_fallback`: the fallback is appended AFTER sorting, so a user `generate_events`
+    handler with a priority below -100 runs before the (higher-priority) fallback. -/
+theorem dispatcher_sorts_desc_partial (s : St) (r : Nat) (name : Name) (chans : List Chan)
+    (hin : ∀ h ∈ s.q2sorted r name chans, h < s.hs.length)
+    (hlow : name = Name.generateEvents → ∀ h ∈ s.q2sorted r name chans, s.q2prio h ≥ -100) :
+    (s.computeHandlers r name chans).1.Pairwise
+      (fun a b => (s.computeHandlers r name chans).2.q2prio a ≥ (s.computeHandlers r name chans).2.q2prio b) :=
+  q2_computeHandlers_desc s r name chans hin hlow
+
+/-- one component with a user handler of priority 3 for `generate_events`: hypotheses hold, the
+    fallback (id 1) is appended last -/
+def exStGE : St :=
+  { comps := [{ parent := 0, root := 0, htab := [(some Name.generateEvents, 0)] }],
+    hs := [{ owner := 0, names := [Name.generateEvents], chan := none, prio := 3, kind := .user 0 }] }
+example : (exStGE.computeHandlers 0 Name.generateEvents [.star]).1 = [0, 1] ∧
+    (∀ h ∈ exStGE.q2sorted 0 Name.generateEvents [.star], h < exStGE.hs.length) ∧
+    (∀ h ∈ exStGE.q2sorted 0 Name.generateEvents [.star], exStGE.q2prio h ≥ -100) := by decide +kernel
+
+/-- the excluded case: a user `generate_events` handler with priority -200 - the list is not
+    descending, the fallback (priority -100) runs after it -/
+def exStGELow : St :=
+  { comps := [{ parent := 0, root := 0, htab := [(some Name.generateEvents, 0)] }],
+    hs := [{ owner := 0, names := [Name.generateEvents], chan := none, prio := -200, kind := .user 0 }] }
+theorem dispatcher_sorts_desc_witness :
+    (exStGELow.computeHandlers 0 Name.generateEvents [.star]).1 = [0, 1] ∧
+    ¬ (exStGELow.computeHandlers 0 Name.generateEvents [.star]).1.Pairwise
+      (fun a b => (exStGELow.computeHandlers 0 Name.generateEvents [.star]).2.q2prio a ≥
+        (exStGELow.computeHandlers 0 Name.generateEvents [.star]).2.q2prio b) := by
+  decide +kernel
+
+/-- the tape names handler 4 of the tie group {0, 2, 4}: hint honoured by machine and layer alike -/
+def exStTape : St :=
+  { hs := [{ owner := 0, names := [], chan := none, prio := 1, kind := .user 0 },
+           { owner := 0, names := [], chan := none, prio := -2, kind := .user 0 },
+           { owner := 0, names := [], chan := none, prio := 1, kind := .user 0 },
+           { owner := 0, names := [], chan := none, prio := 0, kind := .user 0 },
+           { owner := 0, names := [], chan := none, prio := 1, kind := .user 0 }],
+    tape := [.inv 9 4 0] }
+example : exStTape.chooseHandler 9 0 [2, 4, 3, 1] = 4 ∧ exStTape.q2hint 9 0 [2, 4, 3, 1] = some 4 ∧
+    chooseNext exStTape.q2prio (some 4) [0, 2, 4, 3, 1] = some (4, [0, 2, 3, 1]) := by decide
 
 end CV.C02
